@@ -3,6 +3,7 @@ import QbeeModel.Model.Print
 import QbeeModel.Model.NumFmt
 import QbeeModel.Model.Data
 import QbeeModel.Model.Input
+import QbeeModel.Model.Using
 /-
   Line-protocol driver for the executable models.  One request per line, one
   answer per line.  Unknown or malformed requests answer `bad-op`; the models
@@ -123,6 +124,29 @@ def handleInput (r : List String) : Option String := do
     | _ => none
   | _ => none
 
+def encSpec (sp : Using.NumSpec) : String :=
+  s!"num:{sp.width}:{if sp.signEnd then "e" else "b"}:" ++
+  (match sp.signChar with | some c => toString c.toNat | none => "-") ++
+  s!":{if sp.comma then 1 else 0}:" ++
+  (match sp.decimalPoint with | some d => toString d | none => "-") ++ s!":{sp.realSharps}"
+
+def encParts (ps : List Using.Part) : String :=
+  " ".intercalate (ps.map fun
+    | .non s => "non:" ++ encStr s
+    | .str c => s!"str:{c.toNat}"
+    | .num sp => encSpec sp)
+
+/-- values: `S <cp>` | `N <neg 0/1> <body-cp>` -/
+def parseVals : List String → Option (List Using.Val)
+  | [] => some []
+  | "S" :: t :: r => do let s ← decStr t; let rest ← parseVals r; pure (.str s :: rest)
+  | "N" :: n :: b :: r => do
+      let b ← decStr b
+      if n ≠ "0" && n ≠ "1" then none else
+      let rest ← parseVals r
+      pure (.num (n = "1") b :: rest)
+  | _ => none
+
 def handle (toks : List String) : String :=
   match toks with
   | "print" :: r =>
@@ -206,6 +230,22 @@ def handle (toks : List String) : String :=
       | none => "bad-op"
     | none => "bad-op"
   | "input" :: r => (handleInput r).getD "bad-op"
+  | ["uscan", f] =>
+    match decStr f with
+    | some f => match Using.scanFmt f with
+      | .ok ps => "ok " ++ encParts ps
+      | .indexError => "host IndexError"
+      | .fuel => "fuel"
+    | none => "bad-op"
+  | "using" :: f :: r =>
+    match decStr f, parseVals r with
+    | some f, some vals => match Using.scanFmt f with
+      | .ok ps => match Using.format ps vals with
+        | .ok out => "ok " ++ encStr out
+        | .host c => "host " ++ c
+      | .indexError => "host IndexError"
+      | .fuel => "fuel"
+    | _, _ => "bad-op"
   | _ => "bad-op"
 
 end Drv
